@@ -12,6 +12,7 @@ import (
 	"strings"
 
 	cs "github.com/lianxiangcloud/linkchain/consensus"
+	cmn "github.com/lianxiangcloud/linkchain/libs/common"
 	"github.com/lianxiangcloud/linkchain/libs/ser"
 	"github.com/lianxiangcloud/linkchain/types"
 )
@@ -25,7 +26,7 @@ type TraceEntry struct {
 type hdrReg struct {
 	hdr   types.PartSetHeader
 	value int
-	block *types.Block
+	block *types.Block // nil: the complete part set does not decode to a block with header, data and last commit
 }
 
 func hdrKey(h types.PartSetHeader) string { return fmt.Sprintf("%d/%x", h.Total, h.Hash) }
@@ -46,10 +47,17 @@ func (n *Net) registerParts(hdr types.PartSetHeader, parts []*types.Part) int {
 		return 0
 	}
 	var blk *types.Block
+	var v int
 	if _, err := ser.DecodeReader(ps.GetReader(), &blk, 22020096); err != nil || blk == nil || blk.Header == nil || blk.Data == nil || blk.LastCommit == nil {
-		return 0
+		// addProposalBlockPart keeps the parts and drops the block: the header still needs a number (a label, no block has this id)
+		blk = nil
+		var fake cmn.Hash
+		copy(fake[:], hdr.Hash)
+		fake[0] ^= 0xff
+		v = n.ValueOf(types.BlockID{Hash: fake, PartsHeader: hdr})
+	} else {
+		v = n.ValueOf(types.BlockID{Hash: blk.Hash(), PartsHeader: hdr})
 	}
-	v := n.ValueOf(types.BlockID{Hash: blk.Hash(), PartsHeader: hdr})
 	if n.hdrs == nil {
 		n.hdrs = map[string]*hdrReg{}
 	}
@@ -113,19 +121,26 @@ func (n *Net) describeIn(node *Node, m *Msg) string {
 		}
 		return fmt.Sprintf("proposal h=%d r=%d pol=%d v=%d tot=%d by=%d typ=%d", pr.Height, pr.Round, pr.POLRound, n.hdrValue(pr.BlockPartsHeader), pr.BlockPartsHeader.Total, by, pr.Type)
 	case *cs.BlockPartMessage:
-		pv, vok, cok := 0, true, true
+		pv, vok, cok, dec := 0, true, true, true
 		idx := -1
 		if p.Part != nil {
 			idx = p.Part.Index
 		}
 		if r := n.partOwner(p.Part); r != nil {
 			pv = r.value
-			vok = cs.VerifValidateBlock(node.DB, node.CS.VerifStatus(), r.block) == nil
-			calls := node.App.CheckCalls
-			cok = node.App.CheckBlock(r.block)
-			node.App.CheckCalls = calls
+			if _, rec := node.CS.VerifRecoverState(); r.block == nil || r.block.Recover != rec {
+				// undecodable, or a recover counter other than the node's: addProposalBlockPart keeps the parts and drops the block
+				dec = false
+			} else {
+				vok = cs.VerifValidateBlock(node.DB, node.CS.VerifStatus(), r.block) == nil
+				calls := node.App.CheckCalls
+				cok = node.App.CheckBlock(r.block)
+				node.App.CheckCalls = calls
+				// defaultDoPrevote / enterPrecommit / finalizeCommit: checkBlockEvidence && CheckBlock
+				cok = cok && node.CS.VerifCheckBlockEvidence(r.block)
+			}
 		}
-		return fmt.Sprintf("part h=%d r=%d pv=%d i=%d vok=%d cok=%d", p.Height, p.Round, pv, idx, b01(vok), b01(cok))
+		return fmt.Sprintf("part h=%d r=%d pv=%d i=%d vok=%d cok=%d dec=%d", p.Height, p.Round, pv, idx, b01(vok), b01(cok), b01(dec))
 	case *cs.VoteMessage:
 		v := p.Vote
 		ok := v.ValidatorIndex >= 0 && v.ValidatorIndex < len(n.Vals) && len(v.ValidatorAddress) > 0 &&
